@@ -17,7 +17,8 @@ class ConvertibleTensor(tracer.Tracer):
 
     def __eq__(self, other):
         if isinstance(other, ConvertibleTensor):
-            return self.origin == other.origin and self.concrete == other.concrete and self.shape == other.shape
+            # Compare the frozen value (as __hash__ does): e.g. the default value of a factory's parameter may be an array
+            return self.origin == other.origin and _freeze_value(self.concrete) == _freeze_value(other.concrete) and self.shape == other.shape
         return False
 
     def __hash__(self):
